@@ -157,6 +157,21 @@ def delete (r : Req) : Out :=
   | .cal => ⟨204, true⟩                                       -- every path goes to DeleteCalendarObject
   | _ => if r.level = 3 ∨ r.level = 4 then ⟨204, true⟩ else refuse 403
 
+/-- the backends' `Options` (caldav/server.go, carddav/server.go): the methods announced in `Allow` and how many
+    object look-ups (`GetCalendarObject` / `GetAddressObject`) the answer costs — decided by the level alone, and at
+    object level by whether the object exists -/
+structure OptionsAnswer where
+  allow : List String
+  objectReads : Nat
+deriving DecidableEq, Repr
+
+def optionsK (level : Nat) (exists_ : Bool) : OptionsAnswer :=
+  if level ≠ 4 then ⟨["OPTIONS", "PROPFIND", "REPORT", "DELETE", "MKCOL"], 0⟩
+  else if exists_ then ⟨["OPTIONS", "HEAD", "GET", "PUT", "DELETE", "PROPFIND"], 1⟩
+  else ⟨["OPTIONS", "PUT"], 1⟩
+
+def options (r : Req) : OptionsAnswer := optionsK r.level r.exists_
+
 def headGet (r : Req) : Out := if r.level = 4 ∧ r.exists_ then refuse 200 else refuse 404
 
 def reportK (ct : CType) (b : Body) : Out :=
